@@ -539,7 +539,8 @@ def execute(ctx, obs, native_steps=(), assumptions=(), trusted=(), extra_cov=Non
     with ThreadPoolExecutor(max_workers=ctx.jobs) as ex:
         list(ex.map(lambda u: build_unit(ctx, u), allunits))
     with ThreadPoolExecutor(max_workers=ctx.jobs) as ex:
-        futs = {ex.submit(run_ob, ctx, ob): ob for ob in obs}
+        # longest-looking jobs first (memory reservation, then time cap) so that the tail of the run is short
+        futs = {ex.submit(run_ob, ctx, ob): ob for ob in sorted(obs, key=lambda o: (-o.mem_gb, -o.timeout))}
         for fu in as_completed(futs):
             r = fu.result()
             results.append(r)
